@@ -356,6 +356,13 @@ def keep_alive_violations():
     return bad
 
 
+def set_decl(g, decl):
+    # float32 is not combined with a symmetric sqrtcov factor (conditioning squared twice): 1e-7 * cond^2 exceeds every tolerance
+    if decl == "f32" and g["form"] == "sqrtcov" and g.get("struct") == "symmetric":
+        decl = "fortran"
+    g["decl"] = decl
+
+
 def gauss_kwargs(g):
     v = g["value"]
     return {g["form"]: (float(v) if g["shape"] == "scalar" else declare(v, g.get("decl", "dense")))}
@@ -1240,10 +1247,10 @@ def gen_ugla_spec(rng, cell):
     spec["decl"] = (DECLS_2D if mkind == "matrix" else DECLS_1D)[(i // 2) % (10 if mkind == "matrix" else 6)]
     g = spec["liks"][0]["noise"]
     if g["shape"] in ("diagmat", "full"):
-        g["decl"] = DECLS_2D[i % 10]
+        set_decl(g, DECLS_2D[i % 10])
     elif g["shape"] == "vector":
-        g["decl"] = DECLS_1D[i % 6]
-    if i % 2 == 1 and not spec.get("x0_default"):
+        set_decl(g, DECLS_1D[i % 6])
+    if (i // 2) % 2 == 1 and not spec.get("x0_default"):
         spec["init_other"] = [float(rng.randint(1, 3)) * (max(abs(v) for v in xk) or 1.0) for _ in range(n)]
     spec["xk_class"] = xkk
     spec["cell"] = cell_name(spec) + "%s/xk=%s/noise=%s-%s/units=%s" % ("/2d" if two_d else "", xkk, f, s, patname)
@@ -1343,7 +1350,8 @@ def rto_cases(spec, obs, fail, only_precompute=False):
              for l, S in zip(spec["liks"], obs["S_liks"])]
     pr = spec["prior"]
     # (a matrix handed over in float32 is processed in float32 inside Gaussian: its square root is accurate to ~1e-7 only)
-    ftol = lambda gs: "tol6" if any(g.get("decl") == "f32" for g in gs) else "tol9"
+    # (a symmetric sqrtcov R = U^-1 U^-T squares the conditioning once more before inv / cholesky: ~1e-8 relative in binary64)
+    ftol = lambda gs: "tol6" if any(g.get("decl") == "f32" or (g["form"] == "sqrtcov" and g.get("struct") == "symmetric") for g in gs) else "tol9"
     forms = "check_forms %s %s" % (ftol([l["noise"] for l in spec["liks"]]), clist(items))
     if pr["kind"] == "gaussian":
         forms += " && check_forms %s [(%s, %s, %s, %s)]" % (ftol([pr["g"]]), COQF[pr["g"]["form"]], cnat(n), c_gval(pr["g"]), qm(obs["S_prior"]))
@@ -1357,7 +1365,9 @@ def rto_cases(spec, obs, fail, only_precompute=False):
     # 2. b_tild and the stacked operator
     exact = all_small(obs["S_prior"], *obs["S_liks"]) and all_small(pr.get("mean", [0])) and \
         (pr["kind"] != "joint" or all_small(*[b["mean"] for b in pr["blocks"]]))
-    tol = c_tol(0 if exact else 9)
+    # single-precision inputs are processed in single precision (L @ data, sqrtprec @ mean): ~1e-7 relative
+    f32ish = spec.get("decl") == "f32" or any(g.get("decl") == "f32" for g in [l["noise"] for l in spec["liks"]] + ([pr["g"]] if pr["kind"] == "gaussian" else []))
+    tol = c_tol(0 if exact else (6 if f32ish else 9))
     if spec["target"] == "tuple":
         l = spec["liks"][0]
         body = "check_tuple %s %s %s %s %s %s %s %s %s %s" % (tol, cnat(n), qv(l["b"]), qm(l["A"]), c_spform(l["noise"]),
@@ -1371,7 +1381,7 @@ def rto_cases(spec, obs, fail, only_precompute=False):
     big = max(n, p) > 40
     certified = obs["draws"] if not big else [obs["draws"][i] for i in (0, 1, p // 2, p)] + obs["draws"][p + 1:]
     dr = clist(["(%s, %s, %s)" % (qv(d["xcur_v"]), qv(d["e"]), qv(d["x"])) for d in certified])
-    body = "check_draws %s %s %s pr %s && %s" % (c_tol(8), cnat(n), c_liks_obs(spec, obs), dr, cbool(all(d["fired"] for d in obs["draws"])))
+    body = "check_draws %s %s %s pr %s && %s" % ("(1 # 100000)%Q" if f32ish else c_tol(8), cnat(n), c_liks_obs(spec, obs), dr, cbool(all(d["fired"] for d in obs["draws"])))
     add("draws", c_prior_obs(spec, obs, body))
     # 4. the affine map against the posterior the user specified
     ls = clist(["(%s, %s, %s, %s)" % (qm(l["A"]), COQF[l["noise"]["form"]], c_gval(l["noise"]), qv(l["b"])) for l in spec["liks"]])
@@ -1432,10 +1442,11 @@ def ugla_cases(spec, obs, fail, fixed):
     two_d = bool(pr.get("two_d"))
     add("operator-model", "check_lmrf_D %s %s %s %s" % (cbool(two_d), {"zero": "BcZero", "neumann": "BcNeumann", "periodic": "BcPeriodic"}[pr["bc"]],
                                                          cnat(int(round(n ** 0.5)) if two_d else n), qm(obs["D"])))
-    add("precompute", "check_ugla_precompute tol9 %s %s %s %s %s %s %s %s" % (
+    f32ish = spec.get("decl") == "f32" or l["noise"].get("decl") == "f32"
+    add("precompute", "check_ugla_precompute %s %%s %%s %%s %%s %%s %%s %%s %%s" % ("tol6" if f32ish else "tol9") % (
         variant, raw, qv(xk), qv(sw), qm(obs["L2"]), qv(obs["b_tild"]), qm(obs["M_fwd"]), qm(obs["M_adj"])))
     dr = clist(["(%s, %s)" % (qv(d["e"]), qv(d["x"])) for d in obs["draws"]])
-    add("draws", "check_ugla_draws %s %s %s %s %s %s && %s" % (c_tol(8), variant, raw, qv(xk), qv(sw), dr, cbool(all(d["fired"] for d in obs["draws"]))))
+    add("draws", "check_ugla_draws %s %s %s %s %s %s && %s" % ("(1 # 100000)%Q" if f32ish else c_tol(8), variant, raw, qv(xk), qv(sw), dr, cbool(all(d["fired"] for d in obs["draws"]))))
     x0 = obs["draws"][0]["x"]
     xs = [obs["draws"][1 + i]["x"] for i in range(p)]
     law = "check_ugla_law_spec tol6 %s %s %s %s %s %s %s %s" % (raw, COQF[l["noise"]["form"]], c_gval(l["noise"]), qs(obs["c"]), qv(xk), qv(swd), qv(x0), qm(xs))
@@ -1502,9 +1513,9 @@ def build_rto(cuqi, rng, cellspec):
         spec["decl"] = (DECLS_2D if spec["mkind"] == "matrix" else DECLS_1D)[(idx // 2) % (10 if spec["mkind"] == "matrix" else 6)]
         for gi, g in enumerate([l["noise"] for l in spec["liks"]] + ([pr["g"]] if pr["kind"] == "gaussian" else [])):
             if g["shape"] in ("diagmat", "full"):
-                g["decl"] = DECLS_2D[(idx + 3 * gi) % 10]
+                set_decl(g, DECLS_2D[(idx + 3 * gi) % 10])
             elif g["shape"] == "vector":
-                g["decl"] = DECLS_1D[(idx + gi) % 6]
+                set_decl(g, DECLS_1D[(idx + gi) % 6])
         if spec["target"] == "tuple":
             spec["decl"] = "dense"
         spec["xdir"] = [float(rng.choice([-1, 1]) * rng.randint(1, 4)) for _ in range(spec["n"])]
